@@ -99,6 +99,7 @@ func Start(response http.ResponseWriter, request *http.Request, createIfNew bool
 		timeUntouched := time.Since(session.lastAccess)
 		age := time.Since(session.created)
 		ip := session.lastIP
+		lastAgentHash := session.lastUserAgentHash
 		session.RUnlock()
 
 		// We have a valid session for this user. Check if it's valid.
@@ -126,7 +127,7 @@ func Start(response http.ResponseWriter, request *http.Request, createIfNew bool
 
 		// Has the remote user agent changed?
 		if valid && !AcceptChangingUserAgent {
-			valid = session.lastUserAgentHash == 0 || session.lastUserAgentHash == agentHash
+			valid = lastAgentHash == 0 || lastAgentHash == agentHash
 		}
 
 		if !valid {
@@ -234,14 +235,15 @@ func Start(response http.ResponseWriter, request *http.Request, createIfNew bool
 // requested, the new session will be returned in its place.
 func (s *Session) RegenerateID(response http.ResponseWriter) error {
 	// Save this session under a new ID.
-	oldID := s.id
 	id, err := generateSessionID()
 	if err != nil {
 		return fmt.Errorf("Could not generate replacement session ID: %s", err)
 	}
 	s.Lock()
+	oldID := s.id
 	s.id = id
 	s.created = time.Now()
+	created, lastIP, lastUserAgentHash := s.created, s.lastIP, s.lastUserAgentHash
 	s.Unlock()
 	if err = sessions.Set(s); err != nil {
 		return fmt.Errorf("Could not save session under new session ID: %s", err)
@@ -250,10 +252,10 @@ func (s *Session) RegenerateID(response http.ResponseWriter) error {
 	// Save a reference session under the old ID.
 	refSession := &Session{
 		id:                oldID,
-		created:           s.created,
+		created:           created,
 		lastAccess:        time.Now().Add(-SessionIDExpiry),
-		lastIP:            s.lastIP,
-		lastUserAgentHash: s.lastUserAgentHash,
+		lastIP:            lastIP,
+		lastUserAgentHash: lastUserAgentHash,
 		referenceID:       id,
 	}
 	if err = sessions.Set(refSession); err != nil {
@@ -281,7 +283,10 @@ func (s *Session) RegenerateID(response http.ResponseWriter) error {
 // The session should not be used anymore after this call.
 func (s *Session) Destroy(response http.ResponseWriter, request *http.Request) error {
 	// Delete session from cache and persistence layer.
-	if err := sessions.Delete(s.id); err != nil {
+	s.RLock()
+	id := s.id
+	s.RUnlock()
+	if err := sessions.Delete(id); err != nil {
 		return fmt.Errorf("Could not delete session from cache: %s", err)
 	}
 
@@ -590,14 +595,15 @@ func (s *Session) LogIn(user User, exclusive bool, response http.ResponseWriter)
 	// Log user into this session.
 	s.Lock()
 	s.user = user
+	id := s.id
 	s.Unlock()
 	if err := sessions.Set(s); err != nil {
 		return fmt.Errorf("Could not update session cache: %s", err)
 	}
 
 	// Switch session ID.
-	sessionIDMutexes.Lock(s.id)
-	defer sessionIDMutexes.Unlock(s.id)
+	sessionIDMutexes.Lock(id)
+	defer sessionIDMutexes.Unlock(id)
 	if err := s.RegenerateID(response); err != nil {
 		return fmt.Errorf("Could not switch session ID: %s", err)
 	}
@@ -613,8 +619,9 @@ func (s *Session) LogIn(user User, exclusive bool, response http.ResponseWriter)
 func (s *Session) Set(key string, value interface{}) error {
 	s.Lock()
 	s.data[key] = value
+	id := s.id
 	s.Unlock()
-	return Persistence.SaveSession(s.id, s)
+	return Persistence.SaveSession(id, s)
 }
 
 // Get returns a value stored in the session under the given key. If the key is
@@ -649,8 +656,9 @@ func (s *Session) GetAndDelete(key string, def interface{}) interface{} {
 func (s *Session) Delete(key string) error {
 	s.Lock()
 	delete(s.data, key)
+	id := s.id
 	s.Unlock()
-	return Persistence.SaveSession(s.id, s)
+	return Persistence.SaveSession(id, s)
 }
 
 // LogOut logs the currently logged in user out of this session.
@@ -670,9 +678,10 @@ func (s *Session) LogOut() error {
 
 	// Log user out of this session.
 	s.user = nil
+	id := s.id
 	s.Unlock()
 
-	return Persistence.SaveSession(s.id, s)
+	return Persistence.SaveSession(id, s)
 }
 
 // LogOut logs the user with the given ID out of all sessions. This requires
